@@ -203,3 +203,9 @@ func verifAt(b []byte, i int) uint8 {
 	}
 	return 0
 }
+func verifAtU32(s []uint32, i int) uint32 {
+	if i >= 0 && i < len(s) {
+		return s[i]
+	}
+	return 0
+}
